@@ -952,8 +952,11 @@ func (c *client) overriddenFrame(raw *frame.RawFrame, body *frame.Body) interfac
 	}
 	rawFrm, err := c.codec.ConvertToRawFrame(frm)
 	if err != nil {
+		// A request that can't be re-encoded (e.g. a custom payload in a protocol v3 frame) is forwarded the way the client
+		// sent it, like it is without an override, and the backend answers for it. Handing the unencodable frame on instead
+		// fails in the write loop of the backend connection, which closes that connection for every client sharing it.
 		c.proxy.logger.Error("unable to encode request with overridden write consistency", zap.Error(err))
-		return frm
+		return raw
 	}
 	return rawFrm
 }
